@@ -311,6 +311,99 @@ fn history_phase(sp: &Space, acc: &mut Acc) {
     }
 }
 
+/// operand lists of every length N <= max built from a sub-grid: all operands the same; two values
+/// alternating; one different operand (other exactness, zero, a ratio) at the first, the middle or the
+/// last position. A fold that treats short argument lists specially, or loses exactness / order
+/// beyond some length, shows here.
+pub fn scale_operands(g: &[GridNum], texts: &[&str], max: usize) -> Vec<Vec<usize>> {
+    let ix: Vec<usize> = texts.iter().map(|t| g.iter().position(|x| &x.text == t).unwrap_or_else(|| panic!("probe {} not in the grid", t))).collect();
+    let mut out = vec![];
+    for n in 3..=max {
+        for a in &ix {
+            out.push(vec![*a; n]);
+        }
+        for (i, a) in ix.iter().enumerate() {
+            let b = ix[(i + 1) % ix.len()];
+            let c = ix[(i + 3) % ix.len()];
+            out.push((0..n).map(|k| if k % 2 == 0 { *a } else { b }).collect());
+            for pos in [0, n / 2, n - 1] {
+                for odd in [b, c] {
+                    let mut v = vec![*a; n];
+                    v[pos] = odd;
+                    out.push(v);
+                }
+            }
+        }
+    }
+    out
+}
+
+/// the exact fold stays within components of 2^60 (so that the i128 reference cannot overflow)
+fn fold_fits(op: &str, args: &[RNum]) -> bool {
+    let mut acc = args[0];
+    for b in &args[1..] {
+        if let RNum::Exact(n, d) = acc {
+            if n.abs() > (1 << 60) || d.abs() > (1 << 60) {
+                return false;
+            }
+        }
+        acc = match op {
+            "+" => acc.add(*b),
+            "-" => acc.sub(*b),
+            "*" => acc.mul(*b),
+            _ => match acc.div(*b) {
+                Ok(r) => r,
+                Err(_) => return true,
+            },
+        };
+    }
+    true
+}
+
+fn scale_phase(sp: &Space, acc: &mut Acc, max: usize) {
+    let lists = scale_operands(&sp.g, &["1", "2", "1.5", "1/2", "-3", "0", "2/3", "3.0", "-7/2"], max);
+    let lr = &lists;
+    let part = par::sweep(
+        (lists.len() * FOLD3.len()) as u64,
+        256,
+        |_| setup_interp(&sp.g),
+        |it, acc, i| {
+            let op = FOLD3[i as usize % FOLD3.len()];
+            let idx = &lr[i as usize / FOLD3.len()];
+            let out = it.eval(&case_text(op, idx));
+            let args: Vec<RNum> = idx.iter().map(|k| sp.g[*k].val).collect();
+            acc.evals += 1;
+            if !fold_fits(op, &args) {
+                // the exact value has components beyond 2^60: the i128 reference cannot name it; only "no panic other than overflow" is asked
+                acc.count("scale ladder: exact value beyond the reference's range (not judged beyond no-crash)", 1);
+                if let Outcome::Panic(m) = &out {
+                    if panic_class(m) != "arith-overflow" {
+                        acc.mismatch(Mismatch { idx: 5_000_000_000 + i, case: case_pretty(&sp.g, op, idx), expected: "a value or an overflow".into(), observed: format!("{}", out), payload: json!({"kind":"op","op":op,"operands": idx.iter().map(|k| sp.g[*k].text.clone()).collect::<Vec<_>>() }) }, None);
+                    }
+                }
+                return;
+            }
+            acc.count("scale ladder: operand lists of length 3..N", 1);
+            acc.distinct_hash(hash_of(&(op, &out)));
+            match judge(op, &args, &out) {
+                Verdict::Ok => {}
+                Verdict::Excluded(why) => acc.exclude(why, || format!("{} => {}", case_pretty(&sp.g, op, idx), out)),
+                Verdict::Bad(why) => acc.mismatch(
+                    Mismatch {
+                        idx: 5_000_000_000 + i,
+                        case: format!("[{} operands] {}", idx.len(), case_pretty(&sp.g, op, idx)),
+                        expected: why,
+                        observed: format!("{}", out),
+                        payload: json!({"kind":"op","op":op,"operands": idx.iter().map(|k| sp.g[*k].text.clone()).collect::<Vec<_>>() }),
+                    },
+                    None,
+                ),
+            }
+        },
+    );
+    acc.merge(part);
+}
+
 pub fn run(ctx: &Ctx) -> i32 {
     let sp = Space::new(ctx.thorough());
     let total = sp.total();
@@ -364,6 +457,8 @@ pub fn run(ctx: &Ctx) -> i32 {
     );
     acc.merge(acc0);
     history_phase(&sp, &mut acc);
+    let scale = if ctx.thorough() { 300 } else { 100 };
+    scale_phase(&sp, &mut acc, scale);
     report::finish(
         acc,
         RunInfo {
@@ -371,8 +466,8 @@ pub fn run(ctx: &Ctx) -> i32 {
             tier: ctx.tier_name(),
             seed: ctx.seed,
             exhaustive: true,
-            rule: format!("every unary op {:?} on G, every binary op {:?} on G^2, every 3-operand fold {:?} on G^3; every history (one of 20 first calls: failures part-way through an operation, successful calls that reduce ratios or leave the exact range) x (every unary / binary operation on a 12-number sub-grid) on one interpreter; |G|={} (literals and computed values); distinct = distinct (operation, outcome) pairs", UNARY, BINARY, FOLD3, sp.g.len()),
-            bounds: json!({"grid": sp.g.len(), "unary": sp.n1, "binary": sp.n2, "fold3": sp.n3, "overflow_checks": cfg!(debug_assertions)}),
+            rule: format!("every unary op {:?} on G, every binary op {:?} on G^2, every 3-operand fold {:?} on G^3; every history (one of 20 first calls: failures part-way through an operation, successful calls that reduce ratios or leave the exact range) x (every unary / binary operation on a 12-number sub-grid) on one interpreter; every fold on operand lists of every length 3..N (all the same value, two values alternating, one operand of another kind first / in the middle / last; 9 values); |G|={} (literals and computed values); distinct = distinct (operation, outcome) pairs", UNARY, BINARY, FOLD3, sp.g.len()),
+            bounds: json!({"grid": sp.g.len(), "unary": sp.n1, "binary": sp.n2, "fold3": sp.n3, "scale_ladder_max_operands": scale, "overflow_checks": cfg!(debug_assertions)}),
             assumptions: vec![
                 "reference numeric tower (refnum: i128 rationals, Rust f32 IEEE ops) is correct; self-tested against R7RS 6.2.6 examples".into(),
                 "real literals denote the binary32 nearest to the decimal via f64".into(),
